@@ -5,21 +5,23 @@ import re
 
 BARE = re.compile(r'^[A-Za-z0-9_]+$')
 NAMES = ['users', 'posts', 'orders', 'order_items', 'T1', 'x', 'select', 'table', 'Ref', 'note', 'enum', 'indexes',
-         'my table', 'Таблица', 'we ird', 'a-b', 'semi;colon', 'curly{brace}', "quo'te", 'hash#tag', '1st']
+         'my table', 'Таблица', 'we ird', 'a-b', 'semi;colon', 'curly{brace}', "quo'te", 'hash#tag', '1st',
+         'caf\u00e9', 'cafe\u0301']      # the same word composed and decomposed: two different names
 COLS = ['id', 'name', 'user_id', 'created_at', 'status', 'total', 'ref', 'pk', 'unique', 'null', 'as',
-        'my col', 'cöl', 'c,d', '(e)', 'x y z', 'notes', 'note_id', 'Note', 'indexes_count', 'enum_value', 'table_id', 'refs', 'default', 'ID', 'Name', 'User_ID']
+        'my col', 'cöl', 'c,d', '(e)', 'x y z', 'notes', 'note_id', 'Note', 'indexes_count', 'enum_value', 'table_id', 'refs', 'default', 'ID', 'Name', 'User_ID', '\u00e9tat', 'e\u0301tat']
 SCHEMAS = ['public', 'auth', 'my schema', 'S2', 'Public']
 TYPES = ['int', 'integer', 'varchar', 'varchar(255)', 'numeric(10,2)', 'numeric(10, 2)', 'int[]', 'text', 'timestamp',
-         'decimal(1,2)', '"my type"', 'character varying']   # the last two only in quoted form
+         'decimal(1,2)', 'numeric( 10 , 2 )', 'varchar( 255 )', '"my type"', 'character varying']   # the last two only in quoted form
 NOTES = ['a note', 'x', 'two words', 'line one\nline two', 'first\n\nthird after empty', 'é 中 💸', "it's", 'say "hi"',
          'tick ` tock', 'hash # not comment', 'slash // not comment', 'a {brace}', 'indented\n  more\n    most',
          'ends with quote\'', "'''triple inside'''", 'zero\ufeffwidth\ufeffjoiner', ' ', '  ', 'x\n   \ny', 'form\x0cfeed', 'line\u2028separator\x85nel',
-         'a single line that is rather long: ' + 'lorem ipsum dolor sit amet ' * 6, 'back\\\\slash', "two lines\nends with quote'", "four '''' quotes\nsecond line"]
+         'a single line that is rather long: ' + 'lorem ipsum dolor sit amet ' * 6, 'back\\\\slash', "two lines\nends with quote'", "four '''' quotes\nsecond line",
+         'de\u0301compose\u0301 \u2126 \u212b \u1112\u1161\u11ab']      # not in any Unicode normal form: stored as written
 ACTIONS = ['cascade', 'restrict', 'set null', 'set default', 'no action']
 INDEX_TYPES = ['btree', 'hash', 'gin', 'gist', 'brin', 'spgist']
 COLORS = ['#fff', '#AbCdEf', '#123456', '#000']
 COMMENTS = ['a comment', 'c', 'two words here', 'with # and \' and "', 'second line', 'stars **', '*', 'x */ y'.replace(' */', ''),
-            'path C:\\legacy\\dumps\\', 'ends with backslash \\', '{auto} payload: {"done": true}', 'was:\u2028login varchar', 'ff\x0cafter']
+            'path C:\\legacy\\dumps\\', 'ends with backslash \\', '{auto} payload: {"done": true}', 'was:\u2028login varchar', 'ff\x0cafter', 'ALTER TABLE All Rows CREATE "x"']
 
 
 class safe_pools:
@@ -118,8 +120,8 @@ def gen_schema(r, size=None, features=1.0):
     used = set()
     ntab = size if size is not None else r.choice([1, 2, 2, 3, 3, 4])
     for _ in range(r.choice([0, 0, 1, 2]) if f > 0 else 0):
-        nm = r.choice(['status', 'kind', 'my enum', 'E'])
-        sc = r.choice(SCHEMAS)
+        nm = r.choice(['status', 'kind', 'my enum', 'E', 'app.v1.status'])
+        sc = r.choice(SCHEMAS) if '.' not in nm else 'public'     # a dotted name can only be addressed as a bare (public) enum name
         if (sc, nm) in used:
             continue
         used.add((sc, nm))
@@ -141,7 +143,12 @@ def gen_schema(r, size=None, features=1.0):
             aliases.add(alias)
         cols = []
         pk_layout = r.choice(['none', 'single', 'composite'])
-        for i, cn in enumerate(r.sample(COLS, r.randint(1, 4))):
+        colnames = r.sample(COLS, r.randint(1, 4))
+        for a_, b_ in (('\u00e9tat', 'e\u0301tat'),):
+            # two columns whose names differ only by Unicode normalisation form are two columns
+            if (a_ in colnames) != (b_ in colnames) and r.random() < 0.6:
+                colnames.append(b_ if a_ in colnames else a_)
+        for i, cn in enumerate(colnames):
             tk = r.random()
             foreign = [e for e in A['enums'] if e['schema'] != 'public' and BARE.match(e['name'])
                        and not any(x['schema'] == 'public' and x['name'] == e['name'] for x in A['enums'])]
@@ -152,7 +159,7 @@ def gen_schema(r, size=None, features=1.0):
                 # a plain type that merely looks like an enum of ANOTHER schema: a bare name means schema public
                 ty = ('plain', r.choice(foreign)['name'])
             else:
-                ty = ('plain', r.choice(TYPES[:10]))
+                ty = ('plain', r.choice(TYPES[:12]))
             dk = r.choice(['none'] * 5 + ['int', 'int0', 'float', 'true', 'false', 'null', 'str', 'str_empty', 'expr']) if f > 0 else 'none'
             d = {'none': None, 'int': ('int', r.choice([1, 42, 1000000, 7, 9007199254740993, 123456789012345678901234567890])), 'int0': ('int', 0),
                  'float': ('float', r.choice(['1.5', '0.0', '10.25', '3.0', '0.5', '123.456', '52.5200066', '0.0012345678', '1234567.125', '0.1000001'])),
@@ -239,10 +246,10 @@ def gen_schema(r, size=None, features=1.0):
 def add_properties(r, A):
     for t in A['tables']:
         if r.random() < 0.5:
-            t['props'] = [(k, r.choice(NOTES + ['', '    four leading spaces', '\u3000ideographic space first', 'trailing  '])) for k in r.sample(['owner', 'my key', 'k2', 'Unique_key'], r.randint(1, 2))]
+            t['props'] = [(k, r.choice(NOTES + ['', '    four leading spaces', '\u3000ideographic space first', 'trailing  ', 'true', 'False', 'NULL', '42', '1.5'])) for k in r.sample(['owner', 'my key', 'k2', 'Unique_key'], r.randint(1, 2))]
         for c in t['columns']:
             if r.random() < 0.3:
-                c['props'] = [(k, r.choice(NOTES + ['', '    four leading spaces', 'trailing  ']).replace('\n', ' ')) for k in r.sample(['ck', 'col key', 'z'], r.randint(1, 2))]
+                c['props'] = [(k, r.choice(NOTES + ['', '    four leading spaces', 'trailing  ', 'true', 'False', 'NULL', '42']).replace('\n', ' ')) for k in r.sample(['ck', 'col key', 'z'], r.randint(1, 2))]
 
 
 def add_comments(r, A):
@@ -331,7 +338,8 @@ def render_column(st, A, t, c, expected_refs, allow_props):
     out = ind + st.ident(c['name']) + st.ws()
     ty = c['type']
     if ty[0] == 'enum':
-        out += (st.ident(ty[2]) if (ty[1] == 'public' and not st.coin(0.3)) else st.ident(ty[1]) + '.' + st.ident(ty[2]))
+        # an enum whose name holds dots can only be spelt as a bare (public) name: `schema.name` needs exactly one dot
+        out += (st.ident(ty[2]) if (ty[1] == 'public' and (not st.coin(0.3) or '.' in ty[2])) else st.ident(ty[1]) + '.' + st.ident(ty[2]))
     else:
         out += ty[1]
     items = []
